@@ -421,3 +421,60 @@ def branch_emits_both_arms(ctx):
         obs = sorted({normalise(outcome_text(o)) for o in outs})
         ok = bool(obs) and all(o.startswith("REPEAT(") and "<body.effect_var()>" in o for o in obs)
         ctx.check(f"ForLoop.il_write references its body [condition is a {cname}]", ok, "REPEAT(<cond>, <body.effect_var()>)", " | ".join(obs)[:120], fn_where(idx, fl), nontrivial=False)
+
+
+def statement_operand_kind_independence(ctx):
+    """what a statement-level callback builds (assignment, store, load, jump, return, if, for, declaration with initialiser)
+    does not depend on what kind of value its source / address / condition operand is"""
+    idx = get_index(ctx.env)
+    classes = sorted(c for c in set(idx.subclasses("Pure")) | set(idx.subclasses("Hybrid")) if c in idx.classes)
+    ctx.need(len(classes) >= 15, f"value classes: only {len(classes)} found")
+    W = lambda n, s=True, w=32: mk_vt(n, s, w)
+    specs = [
+        ("assignment_expr[=] source", "assignment_expr", lambda r, x: [r.pure("items[0]", vt=W("t0", True, 64), cls="LocalVar"), Tok("ASSIGN_OP", "="), x]),
+        ("assignment_expr[+=] source", "assignment_expr", lambda r, x: [r.pure("items[0]", vt=W("t0", True, 64), cls="LocalVar"), Tok("ASSIGN_OP", "+="), x]),
+        ("assignment_expr[<<=] source", "assignment_expr", lambda r, x: [r.pure("items[0]", vt=W("t0", True, 64), cls="LocalVar"), Tok("ASSIGN_OP", "<<="), x]),
+        ("init_declarator source", "init_declarator", lambda r, x: [Tok("IDENTIFIER", "v"), x]),
+        ("mem_store data", "mem_store", lambda r, x: [Tok("MEM_STORE", "mem_store_"), Tok("SIGN_TYPE", "u"), Tok("BIT_WIDTH", "64"), r.pure("items[3]", vt=W("t3", False, 32)), x]),
+        ("mem_store address", "mem_store", lambda r, x: [Tok("MEM_STORE", "mem_store_"), Tok("SIGN_TYPE", "u"), Tok("BIT_WIDTH", "64"), x, r.pure("items[4]", vt=W("t4", False, 64))]),
+        ("mem_load address", "mem_load", lambda r, x: [Tok("MEM_LOAD", "mem_load_"), Tok("SIGN_TYPE", "s"), Tok("BIT_WIDTH", "16"), x]),
+        ("jump target", "jump", lambda r, x: [Tok("JUMP", "JUMP"), x]),
+        ("return value", "jump_stmt", lambda r, x: [Tok("RETURN", "return"), x]),
+        ("if condition", "selection_stmt", lambda r, x: [Tok("IF", "if"), x, [eff(r, "s0")]]),
+        ("for condition", "iteration_stmt", lambda r, x: [Tok("FOR", "for"), eff(r, "init"), x, eff(r, "step"), [eff(r, "body")]]),
+    ]
+
+    def run(cb, mk, cls):
+        r = Runner(idx)
+        r.fold = False
+
+        def items():
+            x = r.pure("X", vt=mk_vt("tx", True, 8), cls=cls)
+            r.stubs[("X", "get_name")] = "xname"
+            r.stubs[("X", "pure_var")] = "xname"
+            return mk(r, x)
+
+        fi, outs = r.run(cb, items)
+        res = set()
+        for o in outs:
+            if o.kind == "raise":
+                res.add("RAISE")
+                continue
+            nodes = [e[2] for e in o.events if e[0] == "node"]
+            res.add(" ; ".join(n.cls + "(" + ", ".join(f"{k}={lab(x)}" for k, x in sorted(n.fields.get("__ctor__", {}).items()) if k != "name") + ")" for n in nodes) + " -> " + lab(o.value)[:40])
+        return fi, res
+
+    for key, cb, mk in specs:
+        fi, base = run(cb, mk, "Pure")
+        ctx.need(base and base != {"RAISE"}, f"{key}: no translating path for a plain operand")
+        differing = []
+        for c in classes:
+            _, got = run(cb, mk, c)
+            if got != base:
+                differing.append(f"operand a {c}: {sorted(got)[0][:90]}")
+        ctx.check(f"{key}: every kind of operand is treated alike", not differing, f"as for a plain operand: {sorted(base)[0][:80]}", "; ".join(differing[:2]) or "ok", fn_where(idx, fi))
+
+
+@rule("R05.11", "C05", "operand-kind independence of the statement callbacks", min_instances=10)
+def r05_11(ctx):
+    statement_operand_kind_independence(ctx)
